@@ -12,4 +12,7 @@ INVARIANT CountsAll
 INVARIANT RowsNameTheirPoints
 INVARIANT LargestCounted
 INVARIANT Laws
+INVARIANT LayoutLaw
+INVARIANT ExportLayouts
 INVARIANT ExportOK
+PROPERTY InputNeverWritten
